@@ -23,6 +23,8 @@ CHECKS = {
          "Lean 4 proof (verified analyser over regenerated skeletons, fault-to-failure theorems) + exhaustive fault-position enumeration against the implementation", "5/C06"),
  "C04": ("Lean: ownership/aliasing model with a verified analysis (safe_sound: an accepted program never changes an object that existed on entry, on any path through branches, loops and handlers); per-run obligations isSafe(program)=true for the inplace=False programs of the six pandas validate entry points translated from the source with callee summaries; container-kind table. Differential: representation-level snapshots of the argument before/after every entry point x parsing option x eager/lazy, result kind, pandas and polars",
          "Lean 4 proof (verified ownership analysis) + translator (alias programs with callee summaries) + differential snapshots", "5/C04"),
+ "C07": ("Lean theorem noninterference: for any number of threads and EVERY schedule, a thread whose footprint no other thread writes ends each of its turns exactly as in its solo run (same private state, same observations, same shared footprint); witness (decide) for the recorded shared-schema race; per-run obligation that the context configuration is a ContextVar (thread-local). Differential: deterministic settrace scheduler on the real code (all sequential orders, every schedule prefix, random schedules) comparing each thread's outcome with its solo run, configuration and schema fingerprints after the join",
+         "Lean 4 proof (non-interference over all schedules) + deterministic scheduler correspondence", "5/C07"),
 }
 NA = {}
 for i in range(1, 21):
